@@ -331,6 +331,23 @@ func alphabet(m *tbin.Val, s *tbin.Shape, typed bool) []op {
 		path := append(append([]tutil.PE{}, p.Path...), wk)
 		ops = append(ops, op{Kind: "set", Path: path, Val: tbin.I32v(1), ValS: tbin.Sc(tbin.I32), Trig: "wrongkind-on:" + k, Expect: "error"})
 		ops = append(ops, op{Kind: "unset", Path: path, Trig: "wrongkind-on:" + k, Expect: "error"})
+		// a key step of the wrong KIND on a map: a string key on a map whose keys are not strings (the empty string
+		// encodes like the i32 key 0), an integer key on a string-keyed map
+		if p.V.T == tbin.MAP {
+			var wks []tutil.PE
+			if p.V.KT != tbin.STRING {
+				wks = []tutil.PE{{K: 's', S: ""}, {K: 's', S: "ab"}}
+			} else {
+				wks = []tutil.PE{{K: 'k', I: 0}, {K: 'k', I: 1}}
+			}
+			for _, wk := range wks {
+				path := append(append([]tutil.PE{}, p.Path...), wk)
+				t := "wrong-key-kind-on:" + k
+				ops = append(ops, op{Kind: "set", Path: path, Val: tbin.I32v(1), ValS: tbin.Sc(tbin.I32), Trig: t, Expect: "error"})
+				ops = append(ops, op{Kind: "replace", Path: path, Val: tbin.I32v(1), ValS: tbin.Sc(tbin.I32), Trig: t, Expect: "error"})
+				ops = append(ops, op{Kind: "unset", Path: path, Trig: t, Expect: "error-or-noop"})
+			}
+		}
 		// a field-NAME step whose name no field carries (an untyped node cannot resolve names at all); the name is as
 		// long as the id of a present field is large
 		if p.V.T == tbin.STRUCT {
